@@ -82,7 +82,11 @@ fn gen_pattern(u: &mut Unstructured, kind: Kind, v: Inst, off: i32) -> arbitrary
         }
         if matches!(shape, 1..=4) {
             let mut w = *u.choose(&[1usize, 2, 3, 4, 4, 4, 5, 6, 7, 8])?;
-            while w >= 5 && f.year.unsigned_abs() >= 10u64.pow(w as u32) {
+            if u.coin(1, 40)? {
+                // wide fixed-width year fields: lengths at and around 2^k
+                w = (*u.choose(&[10usize, 11, 12, 16, 19, 20, 21, 32, 33, 64, 255, 256, 257, 1024, 65_535, 65_536, 65_537])? as i64 + u.range_i64(-1, 1)?) as usize;
+            }
+            while w >= 5 && w < 19 && f.year.unsigned_abs() >= 10u64.pow(w as u32) {
                 w += 1;
             }
             year_w2 = w == 2;
